@@ -549,7 +549,9 @@ class OpenSystem:
         """
         
         HH = self.get_Hamiltonian()
-        HH.set_rwa([0,1])
+        if not HH.has_rwa:
+            # do not overwrite the block structure the system was built with
+            HH.set_rwa([0,1])
         sbi = self.get_SystemBathInteraction()
         return KTHierarchy(HH, sbi, depth=depth)
     
